@@ -87,6 +87,9 @@ func (s *Server) DidSave(ctx context.Context, params *lsp.DidSaveTextDocumentPar
 
 func (s *Server) DidChange(ctx context.Context, params *lsp.DidChangeTextDocumentParams) error {
 	filename := params.TextDocument.URI.Filename()
+	if len(params.ContentChanges) == 0 {
+		return fmt.Errorf("no content changes for %s", filename)
+	}
 	content := params.ContentChanges[0].Text
 	s.docs[filename] = &document{
 		version: uint32(params.TextDocument.Version),
